@@ -352,6 +352,9 @@ Definition oprofile_eqb (a b : option profile) : bool :=
 Definition outcome (users : list N) (w : world) : list (option N) * list (option profile) * list (option N) :=
   (map resp (threads w), map (fun u => get u (store w)) users, map (fun u => mget M_localAuth u (mem w)) users).
 
+(* the answer of request i *)
+Definition resp_at (w : world) (i : nat) : option N := match nth_error (threads w) i with Some t => resp t | None => None end.
+
 Fixpoint list_eqb {A} (e : A -> A -> bool) (a b : list A) : bool :=
   match a, b with [], [] => true | x :: a', y :: b' => e x y && list_eqb e a' b' | _, _ => false end.
 
